@@ -45,6 +45,8 @@ def make_cases(tier, rng):
             add(p, "foreign", b_, "single")
         add("grpc", "cmd", "delay", "cleanup", 3)
         add("netrpc", "cmd", "ignore", "cleanup", 2)
+        add("grpc", "reattach", "delay", "cleanup", 2)        # managed clients that were reattached, not launched
+        add("netrpc", "foreign", "prompt", "cleanup", 2)
     else:
         for p, l, b in combos:
             add(p, l, b, "single")
@@ -53,6 +55,8 @@ def make_cases(tier, rng):
         for p in PROTOS:
             for b in ["prompt", "delay", "ignore", "crashed"]:
                 add(p, "cmd", b, "cleanup", 3)
+                if p != "grpcmux":
+                    add(p, rng.choice(["reattach", "foreign"]), b, "cleanup", 2)
     return cases
 
 
